@@ -205,22 +205,22 @@ static Token *skip_cond_incl(Token *tok) {
   return tok;
 }
 
-// Double-quote a given string and returns it.
+// Double-quote a given string and returns it. Control characters are
+// written as octal escapes, since a string literal cannot contain, say,
+// a line break.
 static char *quote_string(char *str) {
-  int bufsize = 3;
-  for (int i = 0; str[i]; i++) {
-    if (str[i] == '\\' || str[i] == '"')
-      bufsize++;
-    bufsize++;
-  }
-
-  char *buf = calloc(1, bufsize);
+  char *buf = calloc(1, strlen(str) * 4 + 3);
   char *p = buf;
   *p++ = '"';
   for (int i = 0; str[i]; i++) {
-    if (str[i] == '\\' || str[i] == '"')
+    unsigned char c = str[i];
+    if (c < 0x20 || c == 0x7f) {
+      p += sprintf(p, "\\%03o", c);
+      continue;
+    }
+    if (c == '\\' || c == '"')
       *p++ = '\\';
-    *p++ = str[i];
+    *p++ = c;
   }
   *p++ = '"';
   *p++ = '\0';
